@@ -283,6 +283,14 @@ pub const CRL_FAULTS: [&str; 7] = [
 ];
 pub const TA_FAULTS: [&str; 5] = ["wrongkey", "sigflip", "expired", "garbage", "otherkey"];
 
+/// The TAL of trust anchor `idx` is configured with another key than the
+/// one the (perfectly consistent) trust anchor certificate and its tree use.
+pub fn tal_key_fault(world: &mut World, idx: usize) -> Option<Applied> {
+    let tal = world.tals.get_mut(idx)?;
+    tal.key = (tal.key + 13) % 26;
+    Some(Applied { what: format!("tal:otherkey {}", tal.name), ca: String::new(), only_object: None })
+}
+
 /// A key index that is not the CA's own.
 fn other_key(ca: &CaSpec) -> usize { if ca.key == 27 { 26 } else { 27 } }
 
@@ -411,7 +419,8 @@ pub fn random_fault(rng: &mut Rng, tree: &mut Tree, v: usize, now: i64) -> Optio
                 let world = tree.world.clone();
                 let key_of = move |name: &str| world.ca(name).map(|c| c.key).unwrap_or(0);
                 let idx = rng.below(tree.tas.len() as u64) as usize;
-                ta_fault(&mut tree.tas, &key_of, idx, *rng.pick(&TA_FAULTS[..]), now)
+                if rng.chance(1, 4) { tal_key_fault(&mut tree.world, idx) }
+                else { ta_fault(&mut tree.tas, &key_of, idx, *rng.pick(&TA_FAULTS[..]), now) }
             }
         };
         if res.is_some() { return res }
